@@ -1401,3 +1401,314 @@ Proof.
   destruct I as (D & h & T). pose proof (restore_no_err _ _ T) as NE.
   cbn [step]. rewrite Lv. destruct (restore (s_store s) (s_seg s) (s_idx s)); [congruence| |]; eexists; split; reflexivity.
 Qed.
+
+
+(* ------------------------------------------------------------------ fixed-width arithmetic of AppendBatch *)
+Definition is_byte (x : Z) : Prop := 0 <= x < 256.
+
+Lemma nth_byte d i : Forall is_byte d -> 0 <= nth i d 0 < 256.
+Proof.
+  intros F. destruct (Nat.lt_ge_cases i (length d)) as [L|L].
+  - rewrite Forall_forall in F. apply F. now apply nth_In.
+  - rewrite nth_overflow by assumption. lia.
+Qed.
+
+Lemma be_i32_range d i : Forall is_byte d -> - 2147483648 <= be_i32 d i < 2147483648.
+Proof.
+  intros F. unfold be_i32, be_u32, to_i32.
+  pose proof (nth_byte d i F). pose proof (nth_byte d (i + 1) F).
+  pose proof (nth_byte d (i + 2) F). pose proof (nth_byte d (i + 3) F).
+  destruct (_ <? 2147483648) eqn:E; lia.
+Qed.
+
+Lemma wrap64_small z : - 9223372036854775808 <= z < 9223372036854775808 -> wrap64 z = z.
+Proof. intros H. unfold wrap64. rewrite Z.mod_small by lia. lia. Qed.
+
+(* the int64 computation of AppendBatch equals the model's base + lod + 1: no wrap for
+   any accepted batch while offsets stay below 2^62 *)
+Theorem advance_go_exact raw lod cnt base :
+  Forall is_byte raw -> parse_hdr raw = Some (lod, cnt) -> 0 <= base < 4611686018427387904 ->
+  0 <= lod < 2147483648 /\ advance_go base lod = base + lod + 1 /\ base < advance_go base lod.
+Proof.
+  intros F P B. pose proof (parse_hdr_lod _ _ _ P) as L0.
+  assert (lod < 2147483648) as L1.
+  { unfold parse_hdr in P. destruct (zlen raw <? hdr_min); [discriminate|].
+    destruct (be_i32 raw 23 <? 0); [discriminate|]. inversion P; subst. apply be_i32_range; assumption. }
+  split; [lia|]. unfold advance_go. rewrite (wrap64_small lod) by lia.
+  rewrite (wrap64_small (base + lod)) by lia. rewrite wrap64_small by lia. lia.
+Qed.
+
+(* doing the +1 in int32 (before widening) is NOT the same: it moves the log backwards *)
+Example advance_int32_wraps : wrap32 (2147483647 + 1) = - 2147483648 /\ advance_go 5 2147483647 = 2147483653.
+Proof. vm_compute. split; reflexivity. Qed.
+
+
+(* ------------------------------------------------------------------ C05: a regression needs an overtaken callback *)
+Record GInv (s : state) (ov : nat -> bool) : Prop := mkGInv {
+  gi_cl : forall cl, s_clast s = Some cl -> s_store s <= cl + 1;
+  gi_cb : forall t o b v, s_pcs s t = PCb o b v -> exists cl, s_clast s = Some cl /\ v <= cl;
+  gi_ov : forall t o b v, s_pcs s t = PCb o b v -> ov t = false -> s_store s <= v + 1;
+  gi_hd : hd 0 (s_pubs s) = s_store s
+}.
+
+Definition GInv' (s : state) (ov : nat -> bool) : Prop :=
+  if s_live s then GInv s ov else hd 0 (s_pubs s) = s_store s.
+
+Tactic Notation "pcs_other" hyp(E) constr(t0) constr(t) ident(N) :=
+  destruct (Nat.eq_dec t0 t) as [->|N];
+  [rewrite upd_same in E; try discriminate|rewrite upd_other in E by assumption].
+
+Lemma ginv_step s ov e s' : Inv s -> GInv' s ov -> step s e = Some s' -> GInv' s' (ov_step ov e).
+Proof.
+  intros IS G H. unfold GInv' in *. destruct (s_live s) eqn:Lv.
+  - unfold Inv in IS. rewrite Lv in IS. destruct IS as (h & I). destruct G as [Gcl Gcb Gov Ghd].
+    destruct e; cbn [step] in H; rewrite Lv in H; cbn [negb] in H; try discriminate.
+    + (* EAppend *)
+      destruct (s_pcs s t) eqn:Pt; try discriminate.
+      destruct (parse_hdr raw) as [[lod cnt]|]; [|inversion H; subst; rewrite Lv; constructor; auto].
+      destruct (should_flush _ _ && _); inversion H; subst; cbn; constructor; cbn; auto.
+      all: intros t0 o b v E; pcs_other E t0 t N; eauto.
+    + (* EFlushBegin *)
+      destruct (s_pcs s t) eqn:Pt; try discriminate. destruct (s_owner s); try discriminate.
+      destruct (s_buf s).
+      * destruct (s_clast s) as [cl|] eqn:Ec; inversion H; subst; cbn; rewrite Lv; constructor; cbn; auto.
+        -- rewrite Ec. exact Gcl.
+        -- intros t0 o b0 v E. rewrite Ec. pcs_other E t0 t N; [inversion E; subst; exists v; split; [reflexivity|lia]|eauto].
+        -- intros t0 o b0 v E Ho. pcs_other E t0 t N.
+           ++ inversion E; subst. apply Gcl. reflexivity.
+           ++ rewrite (proj2 (Nat.eqb_neq t0 t) N) in Ho. eauto.
+        -- rewrite Ec. exact Gcl.
+        -- intros t0 o b0 v E. pcs_other E t0 t N. rewrite Ec. eauto.
+        -- intros t0 o b0 v E Ho. pcs_other E t0 t N. rewrite (proj2 (Nat.eqb_neq t0 t) N) in Ho. eauto.
+      * inversion H; subst; cbn; constructor; cbn; auto.
+        -- intros t0 o bb v E. pcs_other E t0 t N. eauto.
+        -- intros t0 o bb v E Ho. pcs_other E t0 t N. rewrite (proj2 (Nat.eqb_neq t0 t) N) in Ho. eauto.
+    + (* EUpSeg *)
+      destruct (s_pcs s t) as [| |o b sg ix| |] eqn:Pt; try discriminate. destruct sg; try discriminate.
+      inversion H; subst; cbn; constructor; cbn; auto.
+      all: intros t0 o0 b0 v E; pcs_other E t0 t N; eauto.
+    + (* EUpIdx *)
+      destruct (s_pcs s t) as [| |o b sg ix| |] eqn:Pt; try discriminate. destruct ix; try discriminate.
+      inversion H; subst; cbn; constructor; cbn; auto.
+      all: intros t0 o0 b0 v E; pcs_other E t0 t N; eauto.
+    + (* ECommit *)
+      destruct (s_pcs s t) as [| |o b sg ix| |] eqn:Pt; try discriminate.
+      destruct sg; try discriminate. destruct ix; try discriminate.
+      inversion H; subst; clear H; cbn.
+      pose proof (li_pcs _ _ I t) as Pb. rewrite Pt in Pb. cbn in Pb. destruct Pb as (Ow & _).
+      destruct (li_own _ _ I _ Ow) as (Nfl & _).
+      pose proof (li_pend _ _ I) as Cp. apply chain_app in Cp as (mid & C1 & _).
+      destruct (chain_last _ _ _ C1 Nfl) as (_ & Lh & _).
+      destruct (linv_bounds _ _ I) as (_ & _ & P).
+      assert (s_store s <= last_off (s_fl s) + 1) as St by (specialize (P _ (proj1 (li_store _ _ I))); lia).
+      assert (forall cl, s_clast s = Some cl -> cl <= last_off (s_fl s)) as Up.
+      { intros cl Ev. specialize (P _ (proj1 (li_clast _ _ I cl Ev))). lia. }
+      constructor; cbn; auto.
+      * intros cl E. inversion E; subst. exact St.
+      * intros t0 o0 b0 v E. exists (last_off (s_fl s)). split; [reflexivity|]. pcs_other E t0 t N.
+        -- inversion E; subst. lia.
+        -- destruct (Gcb _ _ _ _ E) as (cl & Ec & Lv0). specialize (Up _ Ec). lia.
+      * intros t0 o0 b0 v E Ho. pcs_other E t0 t N.
+        -- inversion E; subst. exact St.
+        -- rewrite (proj2 (Nat.eqb_neq t0 t) N) in Ho. eauto.
+    + (* EFailReset *)
+      destruct (s_pcs s t) as [| |o b sg ix| |] eqn:Pt; try discriminate.
+      assert (s_pcs s' = upd (s_pcs s) t (PRet b false) /\ s_live s' = true /\ s_pubs s' = s_pubs s /\
+              s_store s' = s_store s /\ s_clast s' = s_clast s) as (E1 & E2 & E3 & E4 & E5).
+      { destruct sg, ix; try discriminate; inversion H; subst; cbn; auto. }
+      rewrite E2. constructor; rewrite ?E1, ?E3, ?E4, ?E5; auto.
+      all: intros t0 o0 b0 v E; pcs_other E t0 t N; eauto.
+    + (* ECallback *)
+      destruct (s_pcs s t) as [| | |o b v|] eqn:Pt; try discriminate.
+      destruct (Gcb _ _ _ _ Pt) as (cl & Ec & Lcl).
+      inversion H; subst; clear H; cbn. destruct ok; constructor; cbn; auto.
+      * intros cl0 E. rewrite Ec in E. inversion E; subst. lia.
+      * intros t0 o0 b0 v0 E. pcs_other E t0 t N; [destruct o; discriminate|eauto].
+      * intros t0 o0 b0 v0 E Ho. pcs_other E t0 t N; [destruct o; discriminate|].
+        rewrite (proj2 (Nat.eqb_neq t0 t) N) in Ho. discriminate.
+      * intros t0 o0 b0 v0 E. pcs_other E t0 t N; [destruct o; discriminate|eauto].
+      * intros t0 o0 b0 v0 E Ho. pcs_other E t0 t N; [destruct o; discriminate|eauto].
+    + (* ERespond *)
+      destruct (s_pcs s t) as [| | | |b ok] eqn:Pt; try discriminate.
+      inversion H; subst; cbn; constructor; cbn; auto.
+      all: intros t0 o0 b0 v E; pcs_other E t0 t N; eauto.
+    + (* ECrash *)
+      inversion H; subst; cbn. exact Ghd.
+  - unfold Inv in IS. rewrite Lv in IS.
+    destruct (step_live_only _ _ _ Lv H) as [->|[ok ->]]; cbn [step] in H; rewrite Lv in H.
+    + inversion H; subst. rewrite Lv. exact G.
+    + pose proof (restore_spec (s_store s) (s_seg s) (s_idx s)) as R.
+      destruct IS as [Da [W O] [Ds Dn] Dp].
+      destruct (restore (s_store s) (s_seg s) (s_idx s)) as [| |l] eqn:E.
+      * inversion H; subst. rewrite Lv. exact G.
+      * inversion H; subst; cbn. constructor; cbn; auto; try discriminate.
+      * destruct R as (kb & bsb & Cb & -> & Mx).
+        destruct (W _ _ (proj1 Cb)) as (Nb & Chb & Kpos).
+        destruct (chain_last _ _ _ Chb Nb) as (_ & Kle & _).
+        assert (s_store s <= last_off bsb + 1) as Sl.
+        { destruct Ds as [Ds|(k & bs & A & B & _ & D)]; [lia|].
+          pose proof (Mx _ _ (conj A B)) as Lk. destruct (Z.eq_dec k kb) as [->|Nk].
+          - destruct Cb as [Cb _]. rewrite A in Cb. inversion Cb; subst. lia.
+          - assert (last_off bs < kb) by (eapply O; [split; eassumption|exact Cb|lia]). lia. }
+        inversion H; subst; cbn. constructor; cbn; try discriminate.
+        -- intros cl Ecl. inversion Ecl; subst. destruct ((s_store s <=? last_off bsb) && ok); lia.
+        -- destruct ((s_store s <=? last_off bsb) && ok); [reflexivity|exact G].
+Qed.
+
+Lemma runG_inv evs : forall s ov s' ov', Inv s -> GInv' s ov -> runG s ov evs = Some (s', ov') -> Inv s' /\ GInv' s' ov'.
+Proof.
+  induction evs as [|e evs IH]; intros s ov s' ov' I G H; cbn [runG] in H.
+  - inversion H; subst. auto.
+  - destruct (step s e) as [s1|] eqn:E; [|discriminate].
+    eapply IH; [eapply step_inv; eauto|eapply ginv_step; eauto|exact H].
+Qed.
+
+Lemma init_ginv c : GInv' (init c) (fun _ => false).
+Proof. unfold GInv'; cbn. constructor; cbn; auto; discriminate. Qed.
+
+(* In ANY run (any concurrency, faults, crashes, restarts): if a store update lowers
+   next_offset, then while that update's callback was pending another thread's callback
+   reached the store. A regression has no other cause. *)
+Theorem regress_only_when_overtaken c evs s ov t s' :
+  runG (init c) (fun _ => false) evs = Some (s, ov) ->
+  step s (ECallback t true) = Some s' -> s_store s' < s_store s -> ov t = true.
+Proof.
+  intros H St Lt. destruct (runG_inv _ _ _ _ _ (init_inv c) (init_ginv c) H) as (I & G).
+  cbn [step] in St. unfold GInv' in G. destruct (s_live s); [|discriminate]. cbn [negb] in St.
+  destruct (s_pcs s t) as [| | |o b v|] eqn:Pt; try discriminate. inversion St; subst; cbn in Lt.
+  destruct (ov t) eqn:Ho; [reflexivity|]. pose proof (gi_ov _ _ G _ _ _ _ Pt Ho). lia.
+Qed.
+
+(* only callbacks and the restart's offset sync write the store; the sync never lowers it *)
+Theorem store_lowered_only_by_callback c evs s e s' :
+  run (init c) evs = Some s -> step s e = Some s' -> s_store s' < s_store s ->
+  exists t, e = ECallback t true.
+Proof.
+  intros H St Lt. destruct e; cbn [step] in St.
+  all: try (destruct (negb (s_live s)); [discriminate|]).
+  all: try (destruct (s_live s); [discriminate|]).
+  - destruct (s_pcs s t); try discriminate. destruct (parse_hdr raw) as [[? ?]|]; [|inversion St; subst; lia].
+    destruct (should_flush _ _ && _); inversion St; subst; cbn in Lt; lia.
+  - destruct (s_pcs s t); try discriminate. destruct (s_owner s); try discriminate.
+    destruct (s_buf s); [destruct (s_clast s)|]; inversion St; subst; cbn in Lt; lia.
+  - destruct (s_pcs s t) as [| |? ? sg ?| |]; try discriminate. destruct sg; try discriminate. inversion St; subst; cbn in Lt; lia.
+  - destruct (s_pcs s t) as [| |? ? ? ix| |]; try discriminate. destruct ix; try discriminate. inversion St; subst; cbn in Lt; lia.
+  - destruct (s_pcs s t) as [| |? ? sg ix| |]; try discriminate. destruct sg; try discriminate. destruct ix; try discriminate. inversion St; subst; cbn in Lt; lia.
+  - destruct (s_pcs s t) as [| |? ? sg ix| |]; try discriminate. destruct sg, ix; try discriminate; inversion St; subst; cbn in Lt; lia.
+  - destruct (s_pcs s t); try discriminate. destruct ok; [eauto|]. inversion St; subst; cbn in Lt; lia.
+  - destruct (s_pcs s t) as [| | | |? ok]; try discriminate. inversion St; subst; cbn in Lt; lia.
+  - inversion St; subst; cbn in Lt; lia.
+  - destruct (restore _ _ _) as [| |l]; inversion St; subst; cbn in Lt; try lia.
+    destruct ((s_store s <=? l) && sync_ok) eqn:Q; lia.
+  - inversion St; subst; lia.
+Qed.
+(* ------------------------------------------------------------------ C05: monotone whenever callbacks do not overlap *)
+Inductive reach_serial_all (c : cfg) : state -> (nat -> bool) -> Prop :=
+| RSA_init : reach_serial_all c (init c) (fun _ => false)
+| RSA_step s ov e s' : reach_serial_all c s ov -> step s e = Some s' -> cb_serial s' ->
+                       reach_serial_all c s' (ov_step ov e).
+
+Lemma step_cb_origin s e s' x : step s e = Some s' -> is_cb (s_pcs s' x) = true ->
+  is_cb (s_pcs s x) = true \/ e = ECommit x \/ e = EFlushBegin x.
+Proof.
+  intros H C. destruct e; cbn [step] in H.
+  all: try (destruct (negb (s_live s)); [discriminate|]).
+  all: try (destruct (s_live s); [discriminate|]).
+  all: try (destruct (s_pcs s t) eqn:Pt; try discriminate).
+  - destruct (parse_hdr raw) as [[? ?]|]; [|inversion H; subst; auto].
+    destruct (should_flush _ _ && _); inversion H; subst; cbn in C;
+      (destruct (Nat.eq_dec x t) as [->|N]; [rewrite upd_same in C; discriminate|rewrite upd_other in C by assumption; auto]).
+  - destruct (s_owner s); try discriminate.
+    destruct (s_buf s); [destruct (s_clast s)|]; inversion H; subst; cbn in C;
+      (destruct (Nat.eq_dec x t) as [->|N]; [auto|rewrite upd_other in C by assumption; auto]).
+  - destruct sg; try discriminate. inversion H; subst; cbn in C.
+    destruct (Nat.eq_dec x t) as [->|N]; [rewrite upd_same in C; discriminate|rewrite upd_other in C by assumption; auto].
+  - destruct ix; try discriminate. inversion H; subst; cbn in C.
+    destruct (Nat.eq_dec x t) as [->|N]; [rewrite upd_same in C; discriminate|rewrite upd_other in C by assumption; auto].
+  - destruct sg; try discriminate. destruct ix; try discriminate. inversion H; subst; cbn in C.
+    destruct (Nat.eq_dec x t) as [->|N]; [auto|rewrite upd_other in C by assumption; auto].
+  - destruct sg, ix; try discriminate; inversion H; subst; cbn in C;
+      (destruct (Nat.eq_dec x t) as [->|N]; [rewrite upd_same in C; discriminate|rewrite upd_other in C by assumption; auto]).
+  - inversion H; subst; cbn in C.
+    destruct (Nat.eq_dec x t) as [->|N]; [rewrite upd_same in C; destruct o; discriminate|rewrite upd_other in C by assumption; auto].
+  - inversion H; subst; cbn in C.
+    destruct (Nat.eq_dec x t) as [->|N]; [rewrite upd_same in C; discriminate|rewrite upd_other in C by assumption; auto].
+  - inversion H; subst; cbn in C. discriminate.
+  - destruct (restore _ _ _); inversion H; subst; cbn in C; auto; discriminate.
+  - inversion H; subst; auto.
+Qed.
+
+Record SInv (s : state) (ov : nat -> bool) : Prop := mkSInv {
+  si_inv : Inv s;
+  si_g : GInv' s ov;
+  si_serial : cb_serial s;
+  si_fresh : forall t, is_cb (s_pcs s t) = true -> ov t = false;
+  si_nd : nondecreasing_newest_first (s_pubs s)
+}.
+
+Lemma nd_push x l : nondecreasing_newest_first l -> hd 0 l <= x -> (l = [] \/ True) -> nondecreasing_newest_first (x :: l).
+Proof. intros N H _. cbn [nondecreasing_newest_first]. split; [|exact N]. destruct l; [exact I|exact H]. Qed.
+
+Lemma sinv_step s ov e s' : SInv s ov -> step s e = Some s' -> cb_serial s' -> SInv s' (ov_step ov e).
+Proof.
+  intros [I G S F N] H S'. pose proof (ginv_step _ _ _ _ I G H) as G'.
+  constructor; [eapply step_inv; eauto|exact G'|exact S'| |].
+  - (* freshness of pending callbacks *)
+    intros x C. destruct (step_cb_origin _ _ _ _ H C) as [C0|[->| ->]].
+    + destruct e; cbn [ov_step]; auto.
+      * destruct (Nat.eqb x t); auto.
+      * destruct (Nat.eqb x t); auto.
+      * destruct ok; auto. destruct (Nat.eqb x t) eqn:E; [auto|].
+        exfalso. apply Nat.eqb_neq in E. apply E. apply S; [exact C0|].
+        cbn [step] in H. destruct (negb (s_live s)); [discriminate|]. destruct (s_pcs s t); try discriminate. reflexivity.
+    + cbn [ov_step]. now rewrite Nat.eqb_refl.
+    + cbn [ov_step]. now rewrite Nat.eqb_refl.
+  - (* published values stay non-decreasing *)
+    unfold GInv' in G. destruct e; cbn [step] in H.
+    all: try (destruct (s_live s) eqn:Lv; cbn [negb] in H; [|discriminate]).
+    all: try (destruct (s_pcs s t) eqn:Pt; try discriminate).
+    + destruct (parse_hdr raw) as [[? ?]|]; [|inversion H; subst; auto].
+      destruct (should_flush _ _ && _); inversion H; subst; auto.
+    + destruct (s_owner s); try discriminate. destruct (s_buf s); [destruct (s_clast s)|]; inversion H; subst; auto.
+    + destruct sg; try discriminate. inversion H; subst; auto.
+    + destruct ix; try discriminate. inversion H; subst; auto.
+    + destruct sg; try discriminate. destruct ix; try discriminate. inversion H; subst; auto.
+    + destruct sg, ix; try discriminate; inversion H; subst; auto.
+    + inversion H; subst; cbn. destruct ok; [|exact N].
+      apply nd_push; [exact N| |auto]. rewrite (gi_hd _ _ G).
+      apply (gi_ov _ _ G _ _ _ _ Pt). apply F. now rewrite Pt.
+    + inversion H; subst; auto.
+    + inversion H; subst; auto.
+    + destruct (s_live s) eqn:Lv; [discriminate|].
+      destruct (restore _ _ _) as [| |l]; inversion H; subst; cbn; auto.
+      destruct ((s_store s <=? l) && sync_ok) eqn:Q; [|exact N].
+      apply nd_push; [exact N| |auto]. rewrite G. lia.
+    + destruct (s_live s); [discriminate|]. inversion H; subst; auto.
+Qed.
+
+Lemma reach_serial_all_inv c s ov : reach_serial_all c s ov -> SInv s ov.
+Proof.
+  induction 1 as [|s ov e s' R IH St S].
+  - constructor; [apply init_inv|apply init_ginv| | |exact I].
+    + intros t t' C. cbn in C. discriminate.
+    + intros t C. cbn in C. discriminate.
+  - eapply sinv_step; eauto.
+Qed.
+
+(* runs -- with crashes, restarts, S3/store faults, empty-flush publishes, any number of
+   producers -- in which at most one onFlush callback is pending at any time never lower
+   the published offset *)
+Theorem monotone_serial c s ov : reach_serial_all c s ov -> nondecreasing_newest_first (s_pubs s).
+Proof. intros R. apply (si_nd _ _ (reach_serial_all_inv _ _ _ R)). Qed.
+
+(* second refutation witness: the victim is an EMPTY Flush's re-publish *)
+Definition empty_publish_witness : list event :=
+  [EAppend 0%nat (one_raw 1); EAppend 1%nat (one_raw 2); EFlushBegin 0%nat; EUpSeg 0%nat true; EUpIdx 0%nat true;
+   ECommit 0%nat; ECallback 0%nat true; ERespond 0%nat; EFlushBegin 1%nat;
+   EAppend 2%nat (one_raw 3); EFlushBegin 2%nat; EUpSeg 2%nat true; EUpIdx 2%nat true; ECommit 2%nat;
+   ECallback 2%nat true; ECallback 1%nat true].
+
+Theorem monotone_refuted_empty_publish :
+  exists s, run (init (mkCfg 0 0 0 1)) empty_publish_witness = Some s /\
+            s_pubs s = [2; 3; 2] /\ s_pcs s 1%nat = PRet (mkBatch 1 0 1 (one_raw 2)) true.
+Proof. eexists. split; [vm_compute; reflexivity|]. split; reflexivity. Qed.
